@@ -6,9 +6,9 @@ function concerned or about the state AT THE MOMENT of the call (`releaseTrace`)
 existentially chosen state.
 
 IP releases
-* `gc_release_justified` — every item of a `ReleaseIPs` call of `garbageCollectKnownLeaks s` is a tracked
+* `gc_release_justified_partial` — every item of a `ReleaseIPs` call of `garbageCollectKnownLeaks s` is a tracked
   allocation OF `s`, released with its tracked sequence number, which is a confirmed leak and fails the
-  final re-validation against `s.env`.  `sync_release_justified`: the same for a whole `syncIPAM`, about the
+  final re-validation against `s.env`.  `sync_release_justified_partial`: the same for a whole `syncIPAM`, about the
   state `checkAllocations` leaves.
 * `handle_all_confirmed_partial` — every allocation of `s` sharing a released address's handle is a
   confirmed leak.  PARTIAL w.r.t. "all of a handle's addresses together or none": at batch level that is
@@ -54,11 +54,15 @@ theorem gc_items (s : St) (batch : List (Nat × Nat × Nat × Nat))
     obtain ⟨h1, h2, h3, h4⟩ := gcSelect_input s [] s s.leaks rfl (by rw [show mv [] = id from funext mv_nil]; simp) a ha
     exact ⟨a, h1, rfl, h2, h3, h4⟩
 
-/-- **gc_release_justified.** Every (block, ordinal, handle, sequence number) that `garbageCollectKnownLeaks s`
+/-- **gc_release_justified_partial.**  PARTIAL w.r.t. the property's "its owner no longer justifies it": invalidity is
+proved against the code's OWN validity function with the code's OWN choice of source (informer cache when the hosting
+node is unknown, API otherwise), not against the ground truth — with a stale cache and an unknown node these differ
+(KNOWN-FINDING release-in-use-node-gone-stale-cache), and a stale `a.knode` makes a live node's tunnel address
+"invalid" (KNOWN-FINDING release-in-use-tunnel-stale-knode).  What is proved: every (block, ordinal, handle, sequence number) that `garbageCollectKnownLeaks s`
 passes to `ReleaseIPs` is an allocation tracked in `s`, with the sequence number tracked for it, that is a
 confirmed leak and FAILS the final re-validation against the cluster state `s.env` (informer cache when the
 hosting node is unknown, API otherwise). -/
-theorem gc_release_justified (s : St) (batch : List (Nat × Nat × Nat × Nat))
+theorem gc_release_justified_partial (s : St) (batch : List (Nat × Nat × Nat × Nat))
     (h : Call.releaseIPs batch ∈ (garbageCollectKnownLeaks s).2) :
     ∀ x ∈ batch, ∃ a ∈ s.allocs, x = (a.block, a.ord, a.handle, a.seq) ∧
       isValid s.env a a.knode.isNone = false ∧ a.confirmed = true := by
@@ -87,7 +91,7 @@ theorem loop_only_rba (st : St) (l : List (Nat × Nat)) :
 
 /-- the `ReleaseIPs` calls of a whole `syncIPAM s` are those of `garbageCollectKnownLeaks` run on the state
 `checkAllocations s` leaves; every item is justified in THAT state. -/
-theorem sync_release_justified (s : St) (batch : List (Nat × Nat × Nat × Nat))
+theorem sync_release_justified_partial (s : St) (batch : List (Nat × Nat × Nat × Nat))
     (h : Call.releaseIPs batch ∈ (syncIPAM s).2.1) :
     ∀ x ∈ batch, ∃ a ∈ (checkAllocations s).1.allocs, x = (a.block, a.ord, a.handle, a.seq) ∧
       isValid (checkAllocations s).1.env a a.knode.isNone = false ∧ a.confirmed = true := by
@@ -95,7 +99,7 @@ theorem sync_release_justified (s : St) (batch : List (Nat × Nat × Nat × Nat)
   by_cases hi : s.inSync = true
   · simp only [hi, Bool.not_true, Bool.false_eq_true, if_false, List.mem_append, List.mem_map] at h
     rcases h with (h | h) | ⟨n, _, h⟩
-    · exact gc_release_justified _ batch h
+    · exact gc_release_justified_partial _ batch h
     · obtain ⟨b, n, hbn⟩ := loop_only_rba _ _ _ h; cases hbn
     · cases h
   · simp [hi] at h
@@ -371,7 +375,7 @@ theorem tracks_syncStep {s : St} (hT : Tracks s) : Tracks (syncStep s).1 := by
   · exact tracks_syncIPAM hT
 
 /-- when `ReleaseIPs` fails the attempted batch is justified in the same way (and nothing is released) -/
-theorem syncFail_release_justified (s : St) (batch : List (Nat × Nat × Nat × Nat))
+theorem syncFail_release_justified_partial (s : St) (batch : List (Nat × Nat × Nat × Nat))
     (h : Call.releaseIPs batch ∈ (syncIPAMFail s).2.1) :
     ∀ x ∈ batch, ∃ a ∈ (checkAllocations s).1.allocs, x = (a.block, a.ord, a.handle, a.seq) ∧
       isValid (checkAllocations s).1.env a a.knode.isNone = false ∧ a.confirmed = true := by
